@@ -272,4 +272,134 @@ theorem b64encode_len4 (bs : Bytes) : (b64encode bs).length % 4 = 0 := by
   | case3 a b => simp [b64encode]
   | case4 a b c rest ih => simp only [b64encode, List.length_cons]; omega
 
+/-! ### sizes -/
+
+theorem small_of_le (n : Nat) (h : n ≤ maxStrDigits) : Small n := by
+  unfold Small
+  have h1 : n < 10 ^ n := Nat.lt_pow_self (by decide)
+  have h2 : 10 ^ n ≤ 10 ^ 4300 := Nat.pow_le_pow_right (by decide) h
+  omega
+
+theorem small_toDec_length (n : Nat) (h : Small n) : Small (toDec n).length :=
+  small_of_le _ (toDec_len n h)
+
+theorem toDec_inj (a b : Nat) (h : toDec a = toDec b) : a = b := by
+  have ha := toDecF_val a a (Nat.le_refl _)
+  have hb := toDecF_val b b (Nat.le_refl _)
+  unfold toDec at h
+  rw [h] at ha
+  omega
+
+/-! ### the signed string of format 2 -/
+
+theorem toSignV2_append (kv ts : Nat) (n v sig : Bytes) :
+    toSignV2 kv ts n v ++ sig = 50 :: cPipe :: (formatField (toDec kv) ++ cPipe :: (formatField (toDec ts) ++ cPipe ::
+      (formatField n ++ cPipe :: (formatField v ++ cPipe :: sig)))) := by
+  simp [toSignV2]
+
+theorem sep_split (sep : Nat) (a b r1 r2 : Bytes) (ha : sep ∉ a) (hb : sep ∉ b)
+    (h : a ++ sep :: r1 = b ++ sep :: r2) : a = b ∧ r1 = r2 := by
+  have h1 := partition1_append sep a r1 ha
+  have h2 := partition1_append sep b r2 hb
+  rw [h, h2] at h1
+  simp at h1
+  exact ⟨h1.1.symm, h1.2.symm⟩
+
+/-- the length-prefixed field code is prefix-free: a field followed by anything parses in one way only -/
+theorem formatField_prefix_free (a b x y : Bytes) (h : formatField a ++ x = formatField b ++ y) :
+    a = b ∧ x = y := by
+  unfold formatField at h
+  have e1 : toDec a.length ++ [cColon] ++ a ++ x = toDec a.length ++ cColon :: (a ++ x) := by simp
+  have e2 : toDec b.length ++ [cColon] ++ b ++ y = toDec b.length ++ cColon :: (b ++ y) := by simp
+  rw [e1, e2] at h
+  obtain ⟨hl, hr⟩ := sep_split cColon _ _ _ _ (colon_not_in_toDec _) (colon_not_in_toDec _) h
+  have hlen := toDec_inj _ _ hl
+  exact List.append_inj hr hlen
+
+theorem toSignV2_prefix_free (kv ts kv' ts' : Nat) (n v n' v' s s' : Bytes)
+    (h : toSignV2 kv ts n v ++ s = toSignV2 kv' ts' n' v' ++ s') :
+    kv = kv' ∧ ts = ts' ∧ n = n' ∧ v = v' ∧ s = s' := by
+  rw [toSignV2_append, toSignV2_append] at h
+  simp only [List.cons.injEq, true_and] at h
+  obtain ⟨h1, h⟩ := formatField_prefix_free _ _ _ _ h
+  simp only [List.cons.injEq, true_and] at h
+  obtain ⟨h2, h⟩ := formatField_prefix_free _ _ _ _ h
+  simp only [List.cons.injEq, true_and] at h
+  obtain ⟨h3, h⟩ := formatField_prefix_free _ _ _ _ h
+  simp only [List.cons.injEq, true_and] at h
+  obtain ⟨h4, h⟩ := formatField_prefix_free _ _ _ _ h
+  simp only [List.cons.injEq, true_and] at h
+  exact ⟨toDec_inj _ _ h1, toDec_inj _ _ h2, h3, h4, h⟩
+
+theorem decodeFieldsV2_toSign (kv ts : Nat) (n v sig : Bytes) (hkv : Small kv) (hts : Small ts)
+    (hn : Small n.length) (hv : Small v.length) :
+    decodeFieldsV2 (toSignV2 kv ts n v ++ sig) = some ⟨(kv : Int), toDec ts, n, v, sig⟩ := by
+  rw [toSignV2_append]
+  unfold decodeFieldsV2
+  simp only [List.drop_succ_cons, List.drop_zero]
+  rw [consumeField_formatField _ _ (small_toDec_length kv hkv)]
+  simp only
+  rw [consumeField_formatField _ _ (small_toDec_length ts hts)]
+  simp only
+  rw [consumeField_formatField _ _ hn]
+  simp only
+  rw [consumeField_formatField _ _ hv]
+  simp only [pyInt_toDec' kv hkv]
+
+theorem signedPart_append (S sig : Bytes) (h : sig ≠ []) : signedPart (S ++ sig) sig = S := by
+  unfold signedPart
+  cases sig with
+  | nil => exact absurd rfl h
+  | cons c cs => simp
+
+theorem getVersion_toSignV2 (kv ts : Nat) (n v sig : Bytes) : getVersion (toSignV2 kv ts n v ++ sig) = 2 := by
+  rw [toSignV2_append]
+  simp [getVersion, spanDigits, isDigit, cPipe, decVal]
+
+/-! ### version detection on format-1 values -/
+
+theorem spanDigits_all (a r : Bytes) (h : ∀ c ∈ a, isDigit c = true) :
+    spanDigits (a ++ cPipe :: r) = (a, cPipe :: r) := by
+  induction a with
+  | nil => simp [spanDigits, isDigit, cPipe]
+  | cons c cs ih =>
+    have hc := h c (by simp)
+    simp [spanDigits, hc, ih (fun x hx => h x (by simp [hx]))]
+
+theorem spanDigits_some (a r : Bytes) (h : ¬ ∀ c ∈ a, isDigit c = true) :
+    ∃ ds c r', spanDigits (a ++ cPipe :: r) = (ds, c :: r') ∧ c ∈ a := by
+  induction a with
+  | nil => simp at h
+  | cons x xs ih =>
+    by_cases hx : isDigit x = true
+    · have : ¬ ∀ c ∈ xs, isDigit c = true := by
+        intro hall; apply h; intro c hc
+        simp at hc; rcases hc with rfl | hc
+        · exact hx
+        · exact hall c hc
+      obtain ⟨ds, c, r', he, hm⟩ := ih this
+      exact ⟨x :: ds, c, r', by simp [spanDigits, hx, he], by simp [hm]⟩
+    · exact ⟨[], x, xs ++ cPipe :: r, by simp [spanDigits, hx], by simp⟩
+
+/-- a value whose first `|`-free segment has a length divisible by 4 (a base64 text) is never taken for a
+versioned value: a digit-only base64 text has at least 4 digits, i.e. reads as a number above 999. -/
+theorem getVersion_v1 (a r : Bytes) (hp : cPipe ∉ a) (h4 : a.length % 4 = 0) :
+    getVersion (a ++ cPipe :: r) = 1 := by
+  unfold getVersion
+  by_cases hall : ∀ c ∈ a, isDigit c = true
+  · rw [spanDigits_all a r hall]
+    cases a with
+    | nil => rfl
+    | cons d ds =>
+      simp only [List.length_cons] at h4
+      simp
+      intro _ h3
+      omega
+  · obtain ⟨ds, c, r', he, hm⟩ := spanDigits_some a r hall
+    rw [he]
+    have hc : c ≠ cPipe := fun e => hp (e ▸ hm)
+    cases ds with
+    | nil => rfl
+    | cons d ds' => simp [hc]
+
 end TornadoModel.C23
